@@ -286,9 +286,14 @@ def analyse(path, make_store):
     for u in tasks:
         u.unload()
     top = {}
+    ns_names = set(lib.jug_namespace())
     for k, v in space.items():
-        if k.startswith('v') and k[1:].isdigit():
-            top[k] = jug.task.value(v)
+        # every variable the program itself defines (generated v<n> names and the short names of the fixed programs)
+        if (k.startswith('v') and k[1:].isdigit()) or (not k.startswith('_') and k not in ns_names and len(k) <= 3 and k.isidentifier() and k not in ('jug', 'sys', 'os')):
+            try:
+                top[k] = jug.task.value(v)
+            except Exception as e:
+                top[k] = 'EXC %s: %s' % (type(e).__name__, str(e)[:80])
     return index, order, info, top, store
 
 
